@@ -1,9 +1,10 @@
 #!/venv/bin/python
 """run every seeded change in /verif/seeded against the check of its property (quick tier, scratch evidence),
 record the result in its meta.json (`detected_by`) and print the table for DESIGN.md.
-/repo must be clean; each patch is applied, checked and undone straight away."""
+the checkout (TRIMESH_REPO, default /repo) must be clean; each patch is applied, checked and undone straight away."""
 import glob, json, os, re, subprocess, sys, time
 VERIF = os.path.dirname(os.path.dirname(os.path.abspath(__file__)))
+REPO = os.environ.get("TRIMESH_REPO", "/repo")     # a scratch checkout when run in isolation (vp run --with-repo)
 only = sys.argv[1:] 
 rows = []
 for d in sorted(glob.glob(os.path.join(VERIF, "seeded", "C*-*"))):
@@ -14,14 +15,14 @@ for d in sorted(glob.glob(os.path.join(VERIF, "seeded", "C*-*"))):
     patch = os.path.join(d, "patch.diff")
     meta_p = os.path.join(d, "meta.json")
     meta = json.load(open(meta_p))
-    if subprocess.run(["git", "-C", "/repo", "diff", "--quiet"]).returncode != 0:
-        print("/repo has local changes"); sys.exit(2)
-    ap = subprocess.run(["git", "-C", "/repo", "apply", patch], capture_output=True, text=True)
+    if subprocess.run(["git", "-C", REPO, "diff", "--quiet"]).returncode != 0:
+        print(REPO + " has local changes"); sys.exit(2)
+    ap = subprocess.run(["git", "-C", REPO, "apply", patch], capture_output=True, text=True)
     if ap.returncode != 0:
-        ap = subprocess.run(["git", "-C", "/repo", "apply", "-3", patch], capture_output=True, text=True)
+        ap = subprocess.run(["git", "-C", REPO, "apply", "-3", patch], capture_output=True, text=True)
     if ap.returncode != 0:
         rows.append((name, "patch-does-not-apply", "", 0)); print(name, "patch does not apply", ap.stderr[:200]); 
-        subprocess.run(["git", "-C", "/repo", "checkout", "--", "."]); continue
+        subprocess.run(["git", "-C", REPO, "checkout", "--", "."]); continue
     t0 = time.time()
     env = dict(os.environ, VERIF_EVIDENCE_DIR="/tmp/verif-scratch-evidence")
     try:
@@ -31,8 +32,8 @@ for d in sorted(glob.glob(os.path.join(VERIF, "seeded", "C*-*"))):
     except subprocess.TimeoutExpired:
         out, rc = "timeout", 2
     finally:
-        subprocess.run(["git", "-C", "/repo", "checkout", "--", "."])
-        subprocess.run(["git", "-C", "/repo", "reset", "-q"])
+        subprocess.run(["git", "-C", REPO, "checkout", "--", "."])
+        subprocess.run(["git", "-C", REPO, "reset", "-q"])
     wall = time.time() - t0
     vio = [l for l in out.splitlines() if l.startswith("VIOLATION")]
     fail = [l.strip() for l in out.splitlines() if l.strip().startswith(("failing:", "broken:", "disagreement:"))]
